@@ -63,7 +63,12 @@ class MatchingRequestParameter(Parameter):
         rq_pos = self.request_byte_position
         rq_len = self.byte_length
 
-        if len(encode_state.triggering_request) < rq_pos + rq_len:
+        if rq_pos < 0:
+            # negative positions are counted from the end of the
+            # request, i.e., -1 is its last byte
+            rq_pos += len(encode_state.triggering_request)
+
+        if rq_pos < 0 or len(encode_state.triggering_request) < rq_pos + rq_len:
             odxraise(
                 f"Specified triggering request 0x{encode_state.triggering_request.hex()} "
                 f"is not long enough to encode matching request parameter "
